@@ -334,29 +334,32 @@ func (l *Linter) LintFiles(filepaths []string, project *Project) ([]*Error, erro
 
 	type workspace struct {
 		path string
+		proj *Project
 		errs []*Error
 		src  []byte
 	}
 
+	// Resolve projects of all files before starting any goroutine. Projects.At modifies state of
+	// l.projects so it cannot be called in parallel. And when it fails, this method must not return
+	// while goroutines started for other files (and external processes run by them) are running.
 	ws := make([]workspace, 0, len(filepaths))
-	for _, p := range filepaths {
-		ws = append(ws, workspace{path: p})
+	for _, path := range filepaths {
+		proj := project
+		if proj == nil {
+			p, err := l.projects.At(path)
+			if err != nil {
+				return nil, err
+			}
+			proj = p
+		}
+		ws = append(ws, workspace{path: path, proj: proj})
 	}
 
 	eg := errgroup.Group{}
 	for i := range ws {
 		// Each element of ws is accessed by single goroutine so mutex is unnecessary
 		w := &ws[i]
-		proj := project
-		if proj == nil {
-			// This method modifies state of l.projects so it cannot be called in parallel.
-			// Before entering goroutine, resolve project instance.
-			p, err := l.projects.At(w.path)
-			if err != nil {
-				return nil, err
-			}
-			proj = p
-		}
+		proj := w.proj
 		ac := acf.GetCache(proj) // #173
 		rwc := rwcf.GetCache(proj)
 
